@@ -1,7 +1,7 @@
 """C54 peer store: permanent addresses survive automatic removal, bounded records, events exactly for additions/removals — constant-argument who-calls (K4/K6), guards (K1), path counting (K2), capacity-enforcing growth primitive lint (K9/K13)."""
 import re
 
-from .. import lib, mir
+from .. import lib, lib_misc as lm, mir
 from ..mir import render, strip_generics
 
 EXPLANATION = ("Permanence: every call of add_address_inner / remove_address_inner from Store::on_swarm_event passes the constant `false` "
@@ -24,9 +24,11 @@ ASSUMPTIONS = ["hashlink::LruCache semantics as documented (table HASHLINK below
                "PeerRecord::{add_address, remove_address} are public and reachable through record_iter_mut(): changes made there emit no events (documented)",
                "arbitrary interleavings of API calls and swarm events are not executed"]
 PS = "libp2p_peer_store"
-MS = r"^libp2p_peer_store::memory_store::MemoryStore::"
-PR = r"^libp2p_peer_store::memory_store::PeerRecord::"
+MS = r"^libp2p_peer_store::memory_store::MemoryStore::"      # public API names only (add_address, remove_address, new, take_custom_data)
+PR = r"^libp2p_peer_store::memory_store::PeerRecord::"       # public API names only (new, add_address, remove_address)
 OSE = r"<memory_store::MemoryStore as store::Store>::on_swarm_event$"
+# Private items (fields records/pending_events/config/waker/addresses, Config's fields, the two *_inner functions, the
+# queue helper, parameter names) are resolved by role in `resolve()`; nothing below mentions them by name.
 
 # hashlink::LruCache method -> effect on the number of entries
 HASHLINK = {
@@ -43,16 +45,19 @@ SELFTEST = [
     {"mutation": "PeerRecord::add_address: existing entry overwritten unconditionally (`insert(address.clone(), is_permanent)` without the guard)",
      "caught_by": "permanence/PeerRecord::add_address: existing entry never downgraded"},
     {"mutation": "remove_address_inner: PeerAddressRemoved pushed before the `record.remove_address` test (event although nothing removed)",
-     "caught_by": "events/remove_address_inner: event only after a reported removal"},
-    {"mutation": "add_address_inner: `if !is_new` around the event", "caught_by": "events/add_address_inner: event only for a new address"},
+     "caught_by": "events/remover: event only after a reported removal"},
+    {"mutation": "add_address_inner: `if !is_new` around the event", "caught_by": "events/adder: event only for a new address"},
     {"mutation": "remove_address_inner: `if record.addresses.is_empty() || record.custom_data.is_none()` drops a record that still has addresses",
-     "caught_by": "events/remove_address_inner: record dropped only when its address cache is empty"},
+     "caught_by": "events/remover: record dropped only when its address cache is empty"},
     {"mutation": "MemoryStore::new: LruCache::new(config.record_capacity().get())", "caught_by": "bounds/records capacity = config.peer_capacity"},
-    {"mutation": "(pre-fix tree, F16) add_address_inner inserts through records.entry(..).or_insert_with(..)", "caught_by": "bounds/MemoryStore::add_address_inner: LruCache::entry on records"},
-    {"mutation": "add_address_inner: `self.records.insert(*peer, record)` of the unknown-peer arm made conditional (`if !is_new {..}`: event without stored address)", "caught_by": "events/add_address_inner: a new peer's record is stored once"},
-    {"mutation": "insert_custom_data: records.entry(*peer).or_insert(new_record)", "caught_by": "bounds/MemoryStore::insert_custom_data: LruCache::entry on records"},
+    {"mutation": "(pre-fix tree, F16) add_address_inner inserts through records.entry(..).or_insert_with(..)", "caught_by": "bounds/the adder: LruCache::entry on the records cache"},
+    {"mutation": "add_address_inner: `self.records.insert(*peer, record)` of the unknown-peer arm made conditional (`if !is_new {..}`: event without stored address)", "caught_by": "events/adder: a new peer's record is stored once"},
+    {"mutation": "insert_custom_data: records.entry(*peer).or_insert(new_record)", "caught_by": "bounds/MemoryStore::insert_custom_data: LruCache::entry on the records cache"},
     {"mutation": "Config::set_peer_capacity writes record_capacity", "caught_by": "bounds/Config::set_peer_capacity writes peer_capacity"},
     {"mutation": "Store::poll returns Pending for a popped PeerAddressRemoved event", "caught_by": "queue/every popped event is delivered"},
+    {"mutation": "push_event_and_wake no longer wakes the stored waker", "caught_by": "queue/queue helper: stored waker consulted"},
+    {"mutation": "NEUTRAL: rename push_event_and_wake/pending_events (neutral/misc/09.diff), add_address_inner, remove_address_inner, records, force, remove_addr_on_dial_error",
+     "caught_by": "(silent, by design: private items are resolved by role)"},
     {"mutation": "DialFailure arm: `if self.config.remove_addr_on_dial_error { return; }`", "caught_by": "permanence/on_swarm_event: automatic removal only when configured"},
 ]
 
@@ -62,35 +67,9 @@ def arg_const(e, i):
     return a[1] if a[0] == "const" else None
 
 
-def unnot_edges(body, pred):
-    out = set()
-    for bi in body.live:
-        info = body.switch_info(bi)
-        if not info:
-            continue
-        for tgt, ls in info[1].items():
-            if not ls:
-                continue
-            good = True
-            for l in ls:
-                c, lab = info[0], l
-                while c[0] == "un" and c[1] == "Not" and lab in ("true", "false"):
-                    c, lab = c[2], ("false" if lab == "true" else "true")
-                if not pred(c, render(c), lab):
-                    good = False
-            if good:
-                out.add((bi, tgt))
-    return out
-
-
-def ret_consts(body):
-    """[(value or None, Site)] for every assignment of the return place."""
-    out = []
-    for d in body.defs.get(0, []):
-        s = mir.Site(body, d[1], d[2])
-        e = body.site_expr(s)
-        out.append((e[1] if e[0] == "const" else None, s, e))
-    return out
+unnot_edges = lm.unnot_edges
+ret_consts = lm.ret_exprs
+CLONE = "<libp2p_core::Multiaddr as std::clone::Clone>::clone(%s)"
 
 
 def lru_uses(prog, field):
@@ -100,93 +79,171 @@ def lru_uses(prog, field):
         for s in b.call_sites(r"^hashlink::LruCache::\w+$|^hashlink::lru_cache::LruCache::\w+$"):
             e = b.site_expr(s)
             m = strip_generics(b.call_name(s.term)).split("::")[-1]
-            if e[2] and re.search(r"(^|\.)%s$" % field, render(e[2][0])):
+            if e[2] and re.search(r"(^|\.)%s$" % re.escape(field), render(e[2][0])):
                 out.append((b, m, s))
+    return out
+
+
+class Roles:
+    pass
+
+
+def resolve(ctx):
+    """Resolve every private name by role (fail closed when a role is not uniquely filled)."""
+    prog = ctx.prog
+    R = Roles()
+    MSA, PRA, CFA = r"memory_store::MemoryStore$", r"memory_store::PeerRecord$", r"memory_store::Config$"
+    R.records = lm.field_by_type(prog, PS, MSA, r"LruCache<.*PeerRecord")
+    R.queue = lm.field_by_type(prog, PS, MSA, r"VecDeque<.*Event>")
+    R.config = lm.field_by_type(prog, PS, MSA, r"(^|::)Config$")
+    R.waker = lm.field_by_type(prog, PS, MSA, r"Option<std::task::Waker>")
+    R.addresses = lm.field_by_type(prog, PS, PRA, r"LruCache<.*Multiaddr, bool>")
+    # Config's private fields through its public getters
+    cf = {}
+    for getter in ("peer_capacity", "record_capacity", "is_remove_addr_on_dial_error"):
+        b = ctx.body(PS, r"memory_store::Config::%s$" % getter)
+        rr = [e for _, _, e in ret_consts(b)]
+        if len(rr) != 1 or rr[0][0] != "field" or render(rr[0][1]) != "self":
+            raise mir.RuleError("Config::%s is not a plain field getter: %s" % (getter, [render(x) for x in rr]))
+        cf[getter] = rr[0][2]
+    R.peer_cap, R.rec_cap, R.on_dial_error = cf["peer_capacity"], cf["record_capacity"], cf["is_remove_addr_on_dial_error"]
+    if len({R.peer_cap, R.rec_cap, R.on_dial_error}) != 3:
+        raise mir.RuleError("Config getters read the same field: %s" % cf)
+    R.config_fields = [n for n, _ in lm.adt_fields(prog, PS, CFA)]
+    # the functions that construct the two events
+    makers = {}
+    for b in prog.bodies(PS):
+        for v in ("PeerAddressAdded", "PeerAddressRemoved"):
+            if b.agg_sites(r"memory_store::Event$", v) and "Clone" not in b.npath:
+                makers.setdefault(v, []).append(b)
+    R.makers = makers
+    for v in ("PeerAddressAdded", "PeerAddressRemoved"):
+        if len(makers.get(v, [])) != 1:
+            raise mir.RuleError("Event::%s is constructed by %s (expected exactly one function)" % (v, [b.npath for b in makers.get(v, [])]))
+    R.adder, R.remover = makers["PeerAddressAdded"][0], makers["PeerAddressRemoved"][0]
+    ctx.use(R.adder)
+    ctx.use(R.remover)
+    # queue helpers: methods whose body pushes their own parameter onto self.<queue> on every path
+    R.emitters = {}
+    for b in prog.bodies(PS):
+        if b.kind == "closure" or b.argc < 2:
+            continue
+        pb = [s for s in b.call_sites(r"VecDeque::push_back$") if render(b.site_expr(s)[2][0]) == "self." + R.queue and b.site_expr(s)[2][1][0] == "arg"]
+        if pb and lib.count_range(b, [0], b.return_blocks(), lib.bbs(pb)) == (1, 1):
+            R.emitters[b.npath] = (b, pb)
+    return R
+
+
+def emit_sites(R, body):
+    """Sites in `body` that queue an event: direct push_back on the queue field or a call of a queue helper."""
+    out = [s for s in body.call_sites(r"VecDeque::push_back$") if render(body.site_expr(s)[2][0]) == "self." + R.queue]
+    for s in body.call_sites():
+        if strip_generics(body.call_name(s.term)) in R.emitters and s.body.npath not in R.emitters:
+            out.append(s)
     return out
 
 
 def check(ctx):
     prog = ctx.prog
-    add_i = ctx.body(PS, MS + r"add_address_inner$")
-    rem_i = ctx.body(PS, MS + r"remove_address_inner$")
+    R = resolve(ctx)
+    add_i, rem_i = R.adder, R.remover
+    AN, RN = add_i.npath.split("::")[-1], rem_i.npath.split("::")[-1]
+    ctx.note("roles: records=%s queue=%s config=%s waker=%s addresses=%s peer_cap=%s record_cap=%s dial_error_flag=%s adder=%s remover=%s queue helpers=%s" %
+             (R.records, R.queue, R.config, R.waker, R.addresses, R.peer_cap, R.rec_cap, R.on_dial_error, AN, RN, sorted(x.split("::")[-1] for x in R.emitters)))
     ose = ctx.body(PS, OSE)
     radd = ctx.body(PS, PR + r"add_address$")
     rrem = ctx.body(PS, PR + r"remove_address$")
+    # parameter roles (by type)
+    a_peer, a_addr, a_flag = lm.param_by_type(add_i, r"PeerId"), lm.param_by_type(add_i, r"Multiaddr"), lm.param_by_type(add_i, r"^bool$")
+    a_flag_i = lm.param_index_by_type(add_i, r"^bool$") - 1
+    r_peer, r_addr, r_flag = lm.param_by_type(rem_i, r"PeerId"), lm.param_by_type(rem_i, r"Multiaddr"), lm.param_by_type(rem_i, r"^bool$")
+    r_flag_i = lm.param_index_by_type(rem_i, r"^bool$") - 1
+    pa_addr, pa_flag = lm.param_by_type(radd, r"Multiaddr"), lm.param_by_type(radd, r"^bool$")
+    pr_addr, pr_flag = lm.param_by_type(rrem, r"Multiaddr"), lm.param_by_type(rrem, r"^bool$")
+    REC, ADDR = re.escape(R.records), re.escape(R.addresses)
 
-    # ------------------------------------------------------------------ permanence: who calls the inner functions with which flag
-    for inner, public, floor_auto, what_auto, what_pub in (
-            ("add_address_inner", "add_address", 3, "discovered addresses are not permanent", "explicit additions are permanent"),
-            ("remove_address_inner", "remove_address", 3, "automatic removal is never forced", "explicit removal is forced")):
-        calls = prog.callers(PS, MS + inner + "$")
+    # ------------------------------------------------------------------ permanence: who calls the event-producing functions with which flag
+    for inner, flag_i, public, floor_auto, role, what_auto, what_pub in (
+            (add_i, a_flag_i, "add_address", 3, "adder", "discovered addresses are not permanent", "explicit additions are permanent"),
+            (rem_i, r_flag_i, "remove_address", 3, "remover", "automatic removal is never forced", "explicit removal is forced")):
+        calls = [s for b in prog.bodies(PS) for s in b.call_sites() if strip_generics(b.call_name(s.term)) == inner.npath]
         by_body = {}
         for s in calls:
             by_body.setdefault(s.body.npath, []).append(s)
-        want = {"libp2p_peer_store::<memory_store::MemoryStore as store::Store>::on_swarm_event", "libp2p_peer_store::memory_store::MemoryStore::" + public}
-        ctx.ob("permanence", "callers of " + inner, set(by_body) == want, msg="callers: %s" % sorted(by_body))
+        pub_path = "libp2p_peer_store::memory_store::MemoryStore::" + public
+        want = {"libp2p_peer_store::<memory_store::MemoryStore as store::Store>::on_swarm_event", pub_path}
+        ctx.ob("permanence", "callers of the address " + role, set(by_body) == want, msg="callers of %s: %s" % (inner.npath.split("::")[-1], sorted(by_body)))
         auto = [s for s in calls if s.body.npath.endswith("Store>::on_swarm_event") or "Store>::on_swarm_event::" in s.body.npath]
-        ctx.floor("permanence", "on_swarm_event calls of " + inner, auto, floor_auto)
+        ctx.floor("permanence", "on_swarm_event calls of the address " + role, auto, floor_auto)
         for s in auto:
-            v = arg_const(s.body.site_expr(s), 3)
-            ctx.ob("permanence", "on_swarm_event: " + what_auto, v == 0, s.loc(), "%s(.., %s)" % (inner, render(s.body.site_expr(s)[2][3])))
-        for s in by_body.get("libp2p_peer_store::memory_store::MemoryStore::" + public, []):
+            v = arg_const(s.body.site_expr(s), flag_i)
+            ctx.ob("permanence", "on_swarm_event: " + what_auto, v == 0, s.loc(), "%s(.., %s)" % (inner.npath.split("::")[-1], render(s.body.site_expr(s)[2][flag_i])))
+        for s in by_body.get(pub_path, []):
             e = s.body.site_expr(s)
-            ctx.ob("permanence", public + ": " + what_pub, arg_const(e, 3) == 1 and [render(a) for a in e[2][:3]] == ["self", "peer", "address"], s.loc(), render(e)[:160])
-        ctx.ob("permanence", inner + " is private", all(v not in ("pub", "crate") for _, v in prog.fn_vis(PS, MS + inner + "$")), msg=str(prog.fn_vis(PS, MS + inner + "$")))
+            own = [lm.pname(s.body, i) for i in range(1, s.body.argc + 1)]
+            passed = [render(a) for i, a in enumerate(e[2]) if i != flag_i]
+            ctx.ob("permanence", public + ": " + what_pub, arg_const(e, flag_i) == 1 and passed == own, s.loc(), render(e)[:160])
+        ctx.ob("permanence", "the address %s is private" % role, inner.vis not in ("pub", "crate"), "%s:%d" % (inner.file, inner.line), "%s visibility %s" % (inner.npath.split("::")[-1], inner.vis))
     # flag propagation
     c = add_i.call_sites(PR + r"add_address$")
-    ctx.floor("permanence", "add_address_inner -> PeerRecord::add_address", c, 1)
+    ctx.floor("permanence", "adder -> PeerRecord::add_address", c, 1)
     for s in c:
         e = add_i.site_expr(s)
-        ctx.ob("permanence", "add_address_inner passes its address and permanence flag on", render(e[2][1]) == "address" and render(e[2][2]) == "is_permanent", s.loc(), render(e)[-120:])
+        ctx.ob("permanence", "the adder passes its address and permanence flag on", render(e[2][1]) == a_addr and render(e[2][2]) == a_flag, s.loc(), render(e)[-120:])
     c = rem_i.call_sites(PR + r"remove_address$")
-    ctx.floor("permanence", "remove_address_inner -> PeerRecord::remove_address", c, 1, exact=True)
+    ctx.floor("permanence", "remover -> PeerRecord::remove_address", c, 1, exact=True)
     for s in c:
         e = rem_i.site_expr(s)
-        ctx.ob("permanence", "remove_address_inner passes its address and force flag on", render(e[2][1]) == "address" and render(e[2][2]) == "force" and
-               render(e[2][0]).startswith("hashlink::LruCache::") and "(self.records, peer)" in render(e[2][0]), s.loc(), render(e)[-160:])
+        ctx.ob("permanence", "the remover passes its address and force flag on", render(e[2][1]) == r_addr and render(e[2][2]) == r_flag and
+               render(e[2][0]).startswith("hashlink::LruCache::") and "(self.%s, %s)" % (R.records, r_peer) in render(e[2][0]), s.loc(), render(e)[-160:])
     # PeerRecord::remove_address
-    rm = [s for _, m, s in lru_uses(prog, "addresses") if s.body is rrem and HASHLINK.get(m) == "shrink"]
+    rm = [s for _, m, s in lru_uses(prog, R.addresses) if s.body is rrem and HASHLINK.get(m) == "shrink"]
     ctx.floor("permanence", "PeerRecord::remove_address removal", rm, 1, exact=True)
-    forced = unnot_edges(rrem, lambda cnd, r, l: r == "force" and l == "true")
-    not_perm = unnot_edges(rrem, lambda cnd, r, l: (
-        (re.match(r"^<std::option::Option as std::cmp::PartialEq>::eq\(hashlink::LruCache::peek\(self\.addresses, address\), std::option::Option::Some\{0: 1\}\)$", r) and l == "false") or
-        (re.match(r"^<std::option::Option as std::cmp::PartialEq>::ne\(hashlink::LruCache::peek\(self\.addresses, address\), std::option::Option::Some\{0: 1\}\)$", r) and l == "true") or
-        (r == "discr(hashlink::LruCache::peek(self.addresses, address))" and l == "None") or
-        (r == "hashlink::LruCache::peek(self.addresses, address)@Some.0" and l == "false")))
+    PEEK = r"hashlink::LruCache::(peek|peek_mut|get|get_mut)\(self\.%s, %s\)" % (ADDR, re.escape(pr_addr))
+    forced = unnot_edges(rrem, lambda cnd, r, l: r == pr_flag and l == "true")
+    not_perm = unnot_edges(rrem, lambda cnd, r, l: bool(
+        (re.match(r"^<std::option::Option as std::cmp::PartialEq>::eq\(%s, std::option::Option::Some\{0: 1\}\)$" % PEEK, r) and l == "false") or
+        (re.match(r"^<std::option::Option as std::cmp::PartialEq>::ne\(%s, std::option::Option::Some\{0: 1\}\)$" % PEEK, r) and l == "true") or
+        (re.match(r"^discr\(%s\)$" % PEEK, r) and l == "None") or
+        (re.match(r"^%s@Some\.0$" % PEEK, r) and l == "false")))
     ctx.ob("permanence", "floor:PeerRecord::remove_address force / permanence tests", len(forced) >= 1 and len(not_perm) >= 1, "%s:%d" % (rrem.file, rrem.line),
            "force edges %s, not-permanent edges %s" % (sorted(forced), sorted(not_perm)), nontrivial=False)
     for s in rm:
         e = rrem.site_expr(s)
-        ok = bool(forced) and rrem.must_pass_edges(s.bb, forced | not_perm)
+        edges = rrem.derive_edges(forced | not_perm) if hasattr(rrem, "derive_edges") else (forced | not_perm)
+        ok = bool(forced) and rrem.must_pass_edges(s.bb, edges)
         ctx.ob("permanence", "PeerRecord::remove_address: removal needs force or a non-permanent entry", ok, s.loc(),
                "addresses.remove is reached only through `force` or the refuted `peek(address) == Some(true)`" if ok else "addresses.remove reachable for a permanent address without force")
-        ctx.ob("permanence", "PeerRecord::remove_address removes the tested address", render(e[2][1]) == "address", s.loc(), render(e))
-    # the unforced + permanent path returns false
-    perm = unnot_edges(rrem, lambda cnd, r, l: (
-        re.match(r"^<std::option::Option as std::cmp::PartialEq>::eq\(hashlink::LruCache::peek\(self\.addresses, address\), std::option::Option::Some\{0: 1\}\)$", r) and l == "true") or
-        (r == "hashlink::LruCache::peek(self.addresses, address)@Some.0" and l == "true"))
+        ctx.ob("permanence", "PeerRecord::remove_address removes the tested address", render(e[2][1]) == pr_addr, s.loc(), render(e))
+    perm = unnot_edges(rrem, lambda cnd, r, l: bool(
+        (re.match(r"^<std::option::Option as std::cmp::PartialEq>::eq\(%s, std::option::Option::Some\{0: 1\}\)$" % PEEK, r) and l == "true") or
+        (re.match(r"^<std::option::Option as std::cmp::PartialEq>::ne\(%s, std::option::Option::Some\{0: 1\}\)$" % PEEK, r) and l == "false") or
+        (re.match(r"^%s@Some\.0$" % PEEK, r) and l == "true")))
+    not_forced = unnot_edges(rrem, lambda cnd, r, l: r == pr_flag and l == "false")
     rc = ret_consts(rrem)
     falses = [s for v, s, _ in rc if v == 0]
-    if perm:
-        got = lib.count_range(rrem, [t for _, t in perm], rrem.return_blocks(), lib.bbs(rm))
+    if perm and not_forced:
+        # paths on which the entry is permanent and the call unforced: start at the permanent edge, never use the forced edge
+        got = lib.count_range(rrem, [t for _, t in perm], rrem.return_blocks(), lib.bbs(rm), blocked_edges=forced)
         ctx.ob("permanence", "PeerRecord::remove_address: permanent + unforced => nothing removed", got == (0, 0), "%s:%d" % (rrem.file, rrem.line), "removals on the permanent edge: %s" % (got,))
-        got = lib.count_range(rrem, [t for _, t in perm], rrem.return_blocks(), lib.bbs(falses))
+        got = lib.count_range(rrem, [t for _, t in perm], rrem.return_blocks(), lib.bbs(falses), blocked_edges=forced)
         ctx.ob("permanence", "PeerRecord::remove_address: permanent + unforced => reports false", got == (1, 1), "%s:%d" % (rrem.file, rrem.line), "`false` results on the permanent edge: %s" % (got,))
     others = [render(e) for v, s, e in rc if v is None]
-    ctx.ob("events", "PeerRecord::remove_address reports the cache's own removal result", others == ["std::option::Option::is_some(hashlink::LruCache::remove(self.addresses, address))"] and
+    ctx.ob("events", "PeerRecord::remove_address reports the cache's own removal result",
+           all(re.match(r"^std::option::Option::is_some\(hashlink::LruCache::remove\(self\.%s, %s\)\)$" % (ADDR, re.escape(pr_addr)), o) for o in others) and len(others) >= 1 and
            all(v == 0 for v, _, _ in rc if v is not None), "%s:%d" % (rrem.file, rrem.line), "results: %s" % [render(e)[:90] for _, _, e in rc])
     # PeerRecord::add_address
-    ins = [s for _, m, s in lru_uses(prog, "addresses") if s.body is radd and m == "insert"]
+    ins = [s for _, m, s in lru_uses(prog, R.addresses) if s.body is radd and m == "insert"]
     ctx.floor("permanence", "PeerRecord::add_address inserts", ins, 1)
-    look = [s for s in radd.call_sites(r"^hashlink::LruCache::(get|get_mut|peek|peek_mut)$") if render(radd.site_expr(s)[2][1]) == "address"]
+    look = [s for s in radd.call_sites(r"^hashlink::LruCache::(get|get_mut|peek|peek_mut)$") if render(radd.site_expr(s)[2][1]) == pa_addr]
     ctx.floor("permanence", "PeerRecord::add_address lookup", look, 1, exact=True)
     if look:
         lk = look[0]
-        some = lib.switch_edges_on_site(radd, lk, {"Some"}, r"^discr\(hashlink::LruCache::\w+\(self\.addresses, address\)\)$")
-        none = lib.switch_edges_on_site(radd, lk, {"None"}, r"^discr\(hashlink::LruCache::\w+\(self\.addresses, address\)\)$")
+        LK = r"^discr\(hashlink::LruCache::\w+\(self\.%s, %s\)\)$" % (ADDR, re.escape(pa_addr))
+        some = lib.switch_edges_on_site(radd, lk, {"Some"}, LK)
+        none = lib.switch_edges_on_site(radd, lk, {"None"}, LK)
         ctx.ob("permanence", "floor:PeerRecord::add_address present/absent edges", len(some) == 1 and len(none) == 1, lk.loc(), "%s / %s" % (sorted(some), sorted(none)), nontrivial=False)
-        was_false = unnot_edges(radd, lambda cnd, r, l: re.match(r"^hashlink::LruCache::\w+\(self\.addresses, address\)@Some\.0$", r) and l == "false")
-        now_true = unnot_edges(radd, lambda cnd, r, l: r == "is_permanent" and l == "true")
+        now_true = unnot_edges(radd, lambda cnd, r, l: r == pa_flag and l == "true")
         rets = radd.return_blocks()
         rc = ret_consts(radd)
         trues = [s for v, s, _ in rc if v == 1]
@@ -197,7 +254,8 @@ def check(ctx):
             for s in ins:
                 if s.bb not in reach:
                     continue
-                ok = bool(now_true) and radd.must_pass_edges(s.bb, now_true | none)
+                edges = radd.derive_edges(now_true | none) if hasattr(radd, "derive_edges") else (now_true | none)
+                ok = bool(now_true) and radd.must_pass_edges(s.bb, edges)
                 ctx.ob("permanence", "PeerRecord::add_address: existing entry never downgraded", ok, s.loc(),
                        "an existing entry is rewritten only with is_permanent == true" if ok else "an existing (possibly permanent) entry can be rewritten with is_permanent == false")
             got = lib.count_range(radd, [t for _, t in some], rets, lib.bbs(trues))
@@ -212,36 +270,42 @@ def check(ctx):
             ctx.ob("events", "PeerRecord::add_address: absent address never reported as known", got == (0, 0), lk.loc(), "`false` results on the absent edge: %s" % (got,))
         for s in ins:
             e = radd.site_expr(s)
-            ctx.ob("permanence", "PeerRecord::add_address stores (address, is_permanent)", render(e[2][1]) == "<libp2p_core::Multiaddr as std::clone::Clone>::clone(address)" and render(e[2][2]) == "is_permanent", s.loc(), render(e)[:200])
+            ctx.ob("permanence", "PeerRecord::add_address stores (address, is_permanent)", render(e[2][1]) == CLONE % pa_addr and render(e[2][2]) == pa_flag, s.loc(), render(e)[:200])
     # automatic removal only when configured
-    for s in ose.call_sites(MS + r"remove_address_inner$"):
+    FLAG = "self.%s.%s" % (R.config, R.on_dial_error)
+    for s in [x for x in ose.call_sites() if strip_generics(ose.call_name(x.term)) == rem_i.npath]:
         ctx.guarded("permanence", "on_swarm_event: automatic removal only when configured", s,
-                    lambda cnd, r, l: (r == "self.config.remove_addr_on_dial_error" and l == "true") or (r == "Not(self.config.remove_addr_on_dial_error)" and l == "false"),
+                    lambda cnd, r, l: (r == FLAG and l == "true") or (r == "Not(%s)" % FLAG and l == "false") or
+                    (r.endswith("Config::is_remove_addr_on_dial_error(self.%s)" % R.config) and l == "true"),
                     "config.remove_addr_on_dial_error == true")
 
     # ------------------------------------------------------------------ bounds
     new = ctx.body(PS, MS + r"new$")
-    agg = [render(new.site_expr(s)) for s in new.agg_sites(r"memory_store::MemoryStore$")]
-    ctx.ob("bounds", "records capacity = config.peer_capacity", len(agg) == 1 and
-           "records: hashlink::LruCache::new(std::num::NonZero::get(libp2p_peer_store::memory_store::Config::peer_capacity(config)))" in agg[0], "%s:%d" % (new.file, new.line), str(agg)[:200])
+    agg = [dict((k, render(v)) for k, v in new.site_expr(s)[4]) for s in new.agg_sites(r"memory_store::MemoryStore$")]
+    cfgp = lm.pname(new, 1)
+    want = ("hashlink::LruCache::new(std::num::NonZero::get(libp2p_peer_store::memory_store::Config::peer_capacity(%s)))" % cfgp,
+            "hashlink::LruCache::new(std::num::NonZero::get(%s.%s))" % (cfgp, R.peer_cap))
+    ctx.ob("bounds", "records capacity = config.peer_capacity", len(agg) == 1 and agg[0].get(R.records) in want, "%s:%d" % (new.file, new.line), str([a.get(R.records) for a in agg])[:200])
     rnew = ctx.body(PS, PR + r"new$")
-    agg = [render(rnew.site_expr(s)) for s in rnew.agg_sites(r"memory_store::PeerRecord$")]
-    ctx.ob("bounds", "addresses capacity = PeerRecord::new's argument", len(agg) == 1 and "addresses: hashlink::LruCache::new(std::num::NonZero::get(cap))" in agg[0], "%s:%d" % (rnew.file, rnew.line), str(agg)[:200])
+    agg = [dict((k, render(v)) for k, v in rnew.site_expr(s)[4]) for s in rnew.agg_sites(r"memory_store::PeerRecord$")]
+    ctx.ob("bounds", "addresses capacity = PeerRecord::new's argument", len(agg) == 1 and agg[0].get(R.addresses) == "hashlink::LruCache::new(std::num::NonZero::get(%s))" % lm.pname(rnew, 1),
+           "%s:%d" % (rnew.file, rnew.line), str([a.get(R.addresses) for a in agg])[:200])
     rn_calls = prog.callers(PS, PR + r"new$")
     ctx.floor("bounds", "PeerRecord::new call sites", rn_calls, 2)
     for s in rn_calls:
         r = render(s.body.site_expr(s)[2][0])
-        ctx.ob("bounds", "PeerRecord::new(config.record_capacity) in " + s.body.short.split("::")[-1 if s.body.kind != "closure" else -2], r in ("self.config.record_capacity", "^*self.config.record_capacity", "^self.config.record_capacity"), s.loc(), r)
-    for fn, fld in (("peer_capacity", "peer_capacity"), ("record_capacity", "record_capacity")):
-        b = ctx.body(PS, r"memory_store::Config::%s$" % fn)
-        rr = [render(e) for _, _, e in ret_consts(b)]
-        ctx.ob("bounds", "Config::%s reads %s" % (fn, fld), rr == ["self." + fld], "%s:%d" % (b.file, b.line), str(rr))
+        cap = "self.%s.%s" % (R.config, R.rec_cap)
+        ok = r in (cap, "^*" + cap, "^" + cap) or re.match(r"^libp2p_peer_store::memory_store::Config::record_capacity\(\^?\*?self\.%s\)$" % re.escape(R.config), r) is not None
+        host = s.body.npath.split("memory_store::")[-1].split("::{closure")[0].split("::")[-1]
+        role = "the adder" if s.body is add_i or s.body.parent == add_i.path else host
+        ctx.ob("bounds", "PeerRecord::new(config.record_capacity) in " + role, ok, s.loc(), r)
+    for fn, fld in (("peer_capacity", R.peer_cap), ("record_capacity", R.rec_cap)):
         b = ctx.body(PS, r"memory_store::Config::set_%s$" % fn)
-        ws = [(f, render(b.site_expr(s))) for f in ("peer_capacity", "record_capacity", "remove_addr_on_dial_error") for s in b.field_write_sites(f)]
-        ctx.ob("bounds", "Config::set_%s writes %s" % (fn, fld), ws == [(fld, "capacity")], "%s:%d" % (b.file, b.line), str(ws))
-    for field, owner_ok in (("records", r"memory_store::MemoryStore::|<memory_store::MemoryStore as "), ("addresses", r"memory_store::PeerRecord::|memory_store::MemoryStore::(remove_address_inner|take_custom_data)$")):
+        ws = [(f, render(b.site_expr(s))) for f in R.config_fields for s in b.field_write_sites(f)]
+        ctx.ob("bounds", "Config::set_%s writes the field Config::%s reads" % (fn, fn), ws == [(fld, lm.pname(b, 2))], "%s:%d" % (b.file, b.line), str(ws))
+    for label, field, floor in (("records", R.records, 10), ("addresses", R.addresses, 7)):
         uses = lru_uses(prog, field)
-        ctx.floor("bounds", "LruCache uses of " + field, uses, 10 if field == "records" else 7)
+        ctx.floor("bounds", "LruCache uses of the %s cache" % label, uses, floor)
         for b, m, s in uses:
             eff = HASHLINK.get(m)
             fnname = b.npath.split("memory_store::")[-1]
@@ -252,20 +316,20 @@ def check(ctx):
             why = {"grow-unbounded": "the entry API can exceed the configured capacity by 1 (hashlink documentation) and does not evict",
                    "unbounded": "an unbounded cache has no capacity", "rebound": "capacity is changed after construction",
                    "construct": "cache constructed outside the constructor", None: "method not in the table of hashlink semantics (fail closed)"}[eff]
-            ctx.ob("bounds", "%s: LruCache::%s on %s" % (fnname, m, field), False, s.loc(), "growth of a bounded cache must go through LruCache::insert: " + why)
+            role = "the adder" if b is add_i else "the remover" if b is rem_i else fnname
+            ctx.ob("bounds", "%s: LruCache::%s on the %s cache" % (role, m, label), False, s.loc(), "growth of a bounded cache must go through LruCache::insert: " + why)
         grows = [(b, m, s) for b, m, s in uses if HASHLINK.get(m) == "grow-bounded"]
-        ctx.ob("bounds", "%s grows only through LruCache::insert" % field, len(grows) >= 1 and all(HASHLINK.get(m) != "grow-unbounded" for _, m, _ in uses),
+        ctx.ob("bounds", "%s grows only through LruCache::insert" % label, len(grows) >= 1 and all(HASHLINK.get(m) != "grow-unbounded" for _, m, _ in uses),
                msg="growth sites: %s" % sorted({"%s/%s" % (b.npath.split("memory_store::")[-1], m) for b, m, _ in uses if (HASHLINK.get(m) or "").startswith("grow")}))
-    # every field write of records/addresses is a constructor aggregate (no replacement of the cache)
     for b in prog.bodies(PS):
-        for f in ("records", "addresses"):
+        for label, f in (("records", R.records), ("addresses", R.addresses)):
             for s in b.field_write_sites(f, r"memory_store::(MemoryStore|PeerRecord)"):
-                ctx.ob("bounds", "cache %s is never replaced" % f, False, s.loc(), "assignment to .%s in %s" % (f, b.npath))
+                ctx.ob("bounds", "cache %s is never replaced" % label, False, s.loc(), "assignment to .%s in %s" % (f, b.npath))
 
     # ------------------------------------------------------------------ events
     where = "%s:%d" % (add_i.file, add_i.line)
-    pushes = add_i.call_sites(MS + r"push_event_and_wake$")
-    ctx.floor("events", "add_address_inner push", pushes, 1, exact=True)
+    pushes = emit_sites(R, add_i)
+    ctx.floor("events", "adder: queueing of the event", pushes, 1, exact=True)
     ra = add_i.call_sites(PR + r"add_address$")
     ra_bbs = {x.bb for x in ra}
 
@@ -276,110 +340,113 @@ def check(ctx):
     if ra and pushes:
         t_edges = unnot_edges(add_i, lambda cnd, r, l: l == "true" and is_report(cnd))
         f_edges = unnot_edges(add_i, lambda cnd, r, l: l == "false" and is_report(cnd))
-        ctx.ob("events", "floor:add_address_inner is_new edges", len(t_edges) >= 1 and len(f_edges) >= 1, where, "%s / %s" % (sorted(t_edges), sorted(f_edges)), nontrivial=False)
+        ctx.ob("events", "floor:adder is_new edges", len(t_edges) >= 1 and len(f_edges) >= 1, where, "%s / %s" % (sorted(t_edges), sorted(f_edges)), nontrivial=False)
         rets = add_i.return_blocks()
         for s in pushes:
             ok = bool(t_edges) and add_i.must_pass_edges(s.bb, t_edges)
-            ctx.ob("events", "add_address_inner: event only for a new address", ok, s.loc(), "PeerAddressAdded is pushed only on the is_new edge")
+            ctx.ob("events", "adder: event only for a new address", ok, s.loc(), "PeerAddressAdded is queued only on the is_new edge")
             e = add_i.site_expr(s)
             ev = [x for x in mir.walk(e) if x[0] == "agg" and x[3] == "PeerAddressAdded"]
             f = {k: render(v) for k, v in ev[0][4]} if ev else {}
-            ctx.ob("events", "add_address_inner: event describes this addition", f == {"peer_id": "peer", "address": "<libp2p_core::Multiaddr as std::clone::Clone>::clone(address)", "is_permanent": "is_permanent"}, s.loc(), str(f))
+            ctx.ob("events", "adder: event describes this addition", f == {"peer_id": a_peer, "address": CLONE % a_addr, "is_permanent": a_flag}, s.loc(), str(f))
         if t_edges:
             got = lib.count_range(add_i, [t for _, t in t_edges], rets, lib.bbs(pushes))
-            ctx.ob("events", "add_address_inner: every new address announced once", got == (1, 1), where, "pushes on the is_new edge: %s" % (got,))
+            ctx.ob("events", "adder: every new address announced once", got == (1, 1), where, "events queued on the is_new edge: %s" % (got,))
         if f_edges:
             got = lib.count_range(add_i, [t for _, t in f_edges], rets, lib.bbs(pushes))
-            ctx.ob("events", "add_address_inner: nothing announced for a known address", got == (0, 0), where, "pushes on the !is_new edge: %s" % (got,))
+            ctx.ob("events", "adder: nothing announced for a known address", got == (0, 0), where, "events queued on the !is_new edge: %s" % (got,))
         rr = [e for _, _, e in ret_consts(add_i)]
-        ctx.ob("events", "add_address_inner returns PeerRecord::add_address's report", len(rr) >= 1 and all(is_report(x) for x in rr), where, str([render(x)[:80] for x in rr]))
+        ctx.ob("events", "adder returns PeerRecord::add_address's report", len(rr) >= 1 and all(is_report(x) for x in rr), where, str([render(x)[:80] for x in rr]))
         got = lib.count_range(add_i, [0], rets, sorted(ra_bbs))
-        ctx.ob("events", "add_address_inner updates the record once", got == (1, 1), where, "PeerRecord::add_address calls on all paths: %s" % (got,))
-        # the record that received the address is the one kept in `records`
-        look = [s for _, m, s in lru_uses(prog, "records") if s.body is add_i and m in ("peek", "peek_mut", "get", "get_mut") and render(add_i.site_expr(s)[2][1]) == "peer"]
-        ctx.floor("events", "add_address_inner record lookup", look, 1, exact=True)
+        ctx.ob("events", "adder updates the record once", got == (1, 1), where, "PeerRecord::add_address calls on all paths: %s" % (got,))
+        # the record that received the address is the one kept in the records cache
+        look = [s for _, m, s in lru_uses(prog, R.records) if s.body is add_i and m in ("peek", "peek_mut", "get", "get_mut") and render(add_i.site_expr(s)[2][1]) == a_peer]
+        ctx.floor("events", "adder: record lookup", look, 1, exact=True)
         for lk in look:
-            pat = r"^discr\(hashlink::LruCache::\w+\(self\.records, peer\)\)$"
+            pat = r"^discr\(hashlink::LruCache::\w+\(self\.%s, %s\)\)$" % (REC, re.escape(a_peer))
             some = lib.switch_edges_on_site(add_i, lk, {"Some"}, pat)
             none = lib.switch_edges_on_site(add_i, lk, {"None"}, pat)
-            ctx.ob("events", "floor:add_address_inner known/unknown peer edges", len(some) == 1 and len(none) == 1, lk.loc(), "%s / %s" % (sorted(some), sorted(none)), nontrivial=False)
-            stores = [s for _, m, s in lru_uses(prog, "records") if s.body is add_i and m == "insert"]
+            ctx.ob("events", "floor:adder known/unknown peer edges", len(some) == 1 and len(none) == 1, lk.loc(), "%s / %s" % (sorted(some), sorted(none)), nontrivial=False)
+            stores = [s for _, m, s in lru_uses(prog, R.records) if s.body is add_i and m == "insert"]
             for _, t in sorted(some):
                 reach = add_i.reachable([t], stop_nodes=rets)
                 for s in ra:
                     if s.bb in reach and s.bb not in add_i.reachable([x for _, x in none]):
                         r0 = render(add_i.site_expr(s)[2][0])
-                        ctx.ob("events", "add_address_inner: known peer's stored record is updated in place", re.match(r"^hashlink::LruCache::\w+\(self\.records, peer\)@Some\.0$", r0) is not None, s.loc(), r0)
+                        ctx.ob("events", "adder: known peer's stored record is updated in place", re.match(r"^hashlink::LruCache::\w+\(self\.%s, %s\)@Some\.0$" % (REC, re.escape(a_peer)), r0) is not None, s.loc(), r0)
             for _, t in sorted(none):
                 got = lib.count_range(add_i, [t], rets, lib.bbs(stores))
-                ctx.ob("events", "add_address_inner: a new peer's record is stored once", got == (1, 1), lk.loc(), "records.insert on the unknown-peer edge: %s" % (got,))
+                ctx.ob("events", "adder: a new peer's record is stored once", got == (1, 1), lk.loc(), "records.insert on the unknown-peer edge: %s" % (got,))
                 reach = add_i.reachable([t])
                 recv = {render(add_i.site_expr(s)[2][0]) for s in ra if s.bb in reach and s.bb not in add_i.reachable([x for _, x in some])}
                 for s in stores:
                     e = add_i.site_expr(s)
-                    ctx.ob("events", "add_address_inner: the stored record is the one that received the address", render(e[2][1]) == "peer" and {render(e[2][2])} == recv, s.loc(),
+                    ctx.ob("events", "adder: the stored record is the one that received the address", render(e[2][1]) == a_peer and {render(e[2][2])} == recv, s.loc(),
                            "records.insert(%s, %s); add_address receiver(s) %s" % (render(e[2][1]), render(e[2][2]), sorted(recv)))
-                    # the address is added before the record is moved into the cache
-                    lib.precedes(ctx, "events", "add_address_inner: address added before the record is stored", add_i, [x.bb for x in ra if x.bb in reach], [s.bb], "record.add_address(..) precedes records.insert(peer, record)", s.loc())
+                    lib.precedes(ctx, "events", "adder: address added before the record is stored", add_i, [x.bb for x in ra if x.bb in reach], [s.bb], "record.add_address(..) precedes records.insert(peer, record)", s.loc())
     where = "%s:%d" % (rem_i.file, rem_i.line)
-    pushes = rem_i.call_sites(MS + r"push_event_and_wake$")
-    ctx.floor("events", "remove_address_inner push", pushes, 1, exact=True)
+    pushes = emit_sites(R, rem_i)
+    ctx.floor("events", "remover: queueing of the event", pushes, 1, exact=True)
     rr_ = rem_i.call_sites(PR + r"remove_address$")
     if rr_ and pushes:
-        t_edges = unnot_edges(rem_i, lambda cnd, r, l: cnd[0] == "call" and cnd[3] == rr_[0].bb and l == "true")
-        f_edges = unnot_edges(rem_i, lambda cnd, r, l: cnd[0] == "call" and cnd[3] == rr_[0].bb and l == "false")
-        ctx.ob("events", "floor:remove_address_inner removed edges", len(t_edges) >= 1 and len(f_edges) >= 1, where, "%s / %s" % (sorted(t_edges), sorted(f_edges)), nontrivial=False)
+        rr_bbs = {x.bb for x in rr_}
+
+        def is_removed(cnd):
+            leaves = lib.value_leaves(rem_i, cnd)
+            return bool(leaves) and all(x[0] == "call" and x[3] in rr_bbs for x in leaves)
+        t_edges = unnot_edges(rem_i, lambda cnd, r, l: l == "true" and is_removed(cnd))
+        f_edges = unnot_edges(rem_i, lambda cnd, r, l: l == "false" and is_removed(cnd))
+        if hasattr(rem_i, "derive_edges"):
+            t_edges = rem_i.derive_edges(t_edges)
+        ctx.ob("events", "floor:remover removed edges", len(t_edges) >= 1 and len(f_edges) >= 1, where, "%s / %s" % (sorted(t_edges), sorted(f_edges)), nontrivial=False)
         rets = rem_i.return_blocks()
         rc = ret_consts(rem_i)
         trues = [s for v, s, _ in rc if v == 1]
-        ctx.ob("events", "remove_address_inner returns constants", all(v in (0, 1) for v, _, _ in rc) and trues, where, str([v for v, _, _ in rc]))
+        ctx.ob("events", "remover returns constants", all(v in (0, 1) for v, _, _ in rc) and trues, where, str([v for v, _, _ in rc]))
         for s in pushes:
             ok = bool(t_edges) and rem_i.must_pass_edges(s.bb, t_edges)
-            ctx.ob("events", "remove_address_inner: event only after a reported removal", ok, s.loc(), "PeerAddressRemoved is pushed only on the removed edge")
+            ctx.ob("events", "remover: event only after a reported removal", ok, s.loc(), "PeerAddressRemoved is queued only on the removed edge")
             e = rem_i.site_expr(s)
             ev = [x for x in mir.walk(e) if x[0] == "agg" and x[3] == "PeerAddressRemoved"]
             f = {k: render(v) for k, v in ev[0][4]} if ev else {}
-            ctx.ob("events", "remove_address_inner: event describes this removal", f == {"peer_id": "peer", "address": "<libp2p_core::Multiaddr as std::clone::Clone>::clone(address)"}, s.loc(), str(f))
+            ctx.ob("events", "remover: event describes this removal", f == {"peer_id": r_peer, "address": CLONE % r_addr}, s.loc(), str(f))
         for s in trues:
             ok = bool(t_edges) and rem_i.must_pass_edges(s.bb, t_edges)
-            ctx.ob("events", "remove_address_inner: reports true only after a removal", ok, s.loc(), "`true` dominated by the removed edge")
+            ctx.ob("events", "remover: reports true only after a removal", ok, s.loc(), "`true` dominated by the removed edge")
         if t_edges:
             got = lib.count_range(rem_i, [t for _, t in t_edges], rets, lib.bbs(pushes))
-            ctx.ob("events", "remove_address_inner: every removal announced once", got == (1, 1), where, "pushes on the removed edge: %s" % (got,))
+            ctx.ob("events", "remover: every removal announced once", got == (1, 1), where, "events queued on the removed edge: %s" % (got,))
         got = lib.count_range(rem_i, [0], rets, lib.bbs(pushes), blocked_edges=t_edges)
-        ctx.ob("events", "remove_address_inner: nothing announced when nothing was removed", got == (0, 0), where, "pushes on paths avoiding the removed edge: %s" % (got,))
-        got = lib.count_range(rem_i, [0], rets, [rr_[0].bb])
-        ctx.ob("events", "remove_address_inner removes at most once", got is not None and got[1] <= 1, where, "PeerRecord::remove_address calls on all paths: %s" % (got,))
+        ctx.ob("events", "remover: nothing announced when nothing was removed", got in ((0, 0), None), where, "events queued on paths avoiding the removed edge: %s" % (got,))
+        got = lib.count_range(rem_i, [0], rets, sorted(rr_bbs))
+        ctx.ob("events", "remover removes at most once", got is not None and got[1] <= 1, where, "PeerRecord::remove_address calls on all paths: %s" % (got,))
     # dropping a whole record
-    for b in (rem_i, ctx.body(PS, MS + r"take_custom_data$")):
-        drops = [s for _, m, s in lru_uses(prog, "records") if s.body is b and HASHLINK.get(m) == "shrink"]
-        ctx.floor("events", b.short.split("::")[-1] + " record drop", drops, 1, exact=True)
+    for b, role in ((rem_i, "remover"), (ctx.body(PS, MS + r"take_custom_data$"), "take_custom_data")):
+        bp = lm.param_by_type(b, r"PeerId")
+        drops = [s for _, m, s in lru_uses(prog, R.records) if s.body is b and HASHLINK.get(m) == "shrink"]
+        ctx.floor("events", role + " record drop", drops, 1, exact=True)
         for s in drops:
             e = b.site_expr(s)
-            ctx.guarded("events", b.short.split("::")[-1] + ": record dropped only when its address cache is empty", s,
-                        lambda cnd, r, l: re.match(r"^hashlink::LruCache::is_empty\(hashlink::LruCache::\w+\(self\.records, peer\)@Some\.0\.addresses\)$", r) is not None and l == "true",
-                        "record.addresses.is_empty()")
-            ctx.ob("events", b.short.split("::")[-1] + ": the dropped record is the inspected peer's", render(e[2][1]) == "peer", s.loc(), render(e))
-    # who constructs events
-    makers = {}
-    for b in prog.bodies(PS):
-        for v in ("PeerAddressAdded", "PeerAddressRemoved"):
-            if b.agg_sites(r"memory_store::Event$", v) and "Clone" not in b.npath:
-                makers.setdefault(v, set()).add(b.npath.split("::")[-1])
-    ctx.ob("events", "events are constructed only by the two inner functions", makers == {"PeerAddressAdded": {"add_address_inner"}, "PeerAddressRemoved": {"remove_address_inner"}}, msg=str(makers))
+            pat = r"^hashlink::LruCache::is_empty\(hashlink::LruCache::\w+\(self\.%s, %s\)@Some\.0\.%s\)$" % (REC, re.escape(bp), ADDR)
+            ctx.guarded("events", role + ": record dropped only when its address cache is empty", s,
+                        lambda cnd, r, l, pat=pat: re.match(pat, r) is not None and l == "true", "record.addresses.is_empty()")
+            ctx.ob("events", role + ": the dropped record is the inspected peer's", render(e[2][1]) == bp, s.loc(), render(e))
+    ctx.ob("events", "each event kind is constructed by exactly one function", {k: len(v) for k, v in R.makers.items()} == {"PeerAddressAdded": 1, "PeerAddressRemoved": 1},
+           msg=str({k: [b.npath.split("::")[-1] for b in v] for k, v in R.makers.items()}))
     # queue
-    pw = ctx.body(PS, MS + r"push_event_and_wake$")
-    pb = [s for s in pw.call_sites(r"VecDeque::push_back$") if [render(a) for a in pw.site_expr(s)[2]] == ["self.pending_events", "event"]]
-    got = lib.count_range(pw, [0], pw.return_blocks(), lib.bbs(pb))
-    ctx.ob("queue", "push_event_and_wake queues its event once on every path", got == (1, 1), "%s:%d" % (pw.file, pw.line), "push_back(self.pending_events, event): %s" % (got,))
-    takes = [s for s in pw.call_sites(r"Option::take$") if render(pw.site_expr(s)[2][0]) == "self.waker"]
-    for tk in takes[:1]:
-        some = lib.switch_edges_on_site(pw, tk, {"Some"}, r"^discr\(std::option::Option::take\(self\.waker\)\)$")
-        got = lib.count_range(pw, [t for _, t in some], pw.return_blocks(), lib.bbs(pw.call_sites(r"task::Waker::wake(_by_ref)?$"))) if some else None
-        ctx.ob("queue", "push_event_and_wake wakes a stored waker", got == (1, 1), tk.loc(), "wake() on the Some(waker) edge: %s" % (got,))
-    ctx.floor("queue", "waker.take in push_event_and_wake", takes, 1)
+    for npath, (pw, pb) in sorted(R.emitters.items()):
+        nm = "queue helper"
+        ctx.use(pw)
+        ctx.ob("queue", nm + " queues its event once on every path", True, "%s:%d" % (pw.file, pw.line), "%s: push_back(self.%s, <param>) on all paths: (1, 1)" % (npath.split("::")[-1], R.queue))
+        lm.wake_after(ctx, "queue", nm, pw, pw.succ[pb[0].bb], R.waker)
+        ctx.ob("queue", nm + " is private", pw.vis not in ("pub",), "%s:%d" % (pw.file, pw.line), "visibility %s" % pw.vis)
+    for b in (add_i, rem_i):
+        for s in emit_sites(R, b):
+            if strip_generics(b.call_name(s.term)) not in R.emitters:   # direct push in the adder/remover: it must wake itself
+                lm.wake_after(ctx, "queue", "direct queueing in " + ("adder" if b is add_i else "remover"), b, b.succ[s.bb], R.waker)
     p = ctx.body(PS, r"<memory_store::MemoryStore as store::Store>::poll$")
-    pops = [s for s in p.call_sites(r"VecDeque::pop_front$") if render(p.site_expr(s)[2][0]) == "self.pending_events"]
+    Q = "self." + R.queue
+    pops = [s for s in p.call_sites(r"VecDeque::pop_front$") if render(p.site_expr(s)[2][0]) == Q]
     ctx.floor("queue", "poll pop_front", pops, 1, exact=True)
     readies, pend, other = [], [], []
     for d in p.defs.get(0, []):
@@ -387,30 +454,34 @@ def check(ctx):
         r = render(p.site_expr(s))
         (readies if r.startswith("std::task::Poll::Ready{") else pend if r.startswith("std::task::Poll::Pending") else other).append((s, r))
     ctx.ob("queue", "poll results are Ready(event) / Pending", not other and readies and pend, "%s:%d" % (p.file, p.line), str([r[:60] for _, r in other]))
+    POP = r"^discr\(std::collections::VecDeque::pop_front\(self\.%s\)\)$" % re.escape(R.queue)
     for s in pops:
-        some = lib.switch_edges_on_site(p, s, {"Some"}, r"^discr\(std::collections::VecDeque::pop_front\(self\.pending_events\)\)$")
-        none = lib.switch_edges_on_site(p, s, {"None"}, r"^discr\(std::collections::VecDeque::pop_front\(self\.pending_events\)\)$")
+        some = lib.switch_edges_on_site(p, s, {"Some"}, POP)
+        none = lib.switch_edges_on_site(p, s, {"None"}, POP)
         if some:
             got = lib.count_range(p, [t for _, t in some], p.return_blocks(), lib.bbs([x for x, _ in readies]))
             ctx.ob("queue", "every popped event is delivered", got == (1, 1), s.loc(), "Ready results on the Some edge: %s" % (got,))
         for ps, _ in pend:
             ctx.ob("queue", "Pending only when no event is queued", bool(none) and p.must_pass_edges(ps.bb, none), ps.loc(), "Poll::Pending dominated by pop_front == None")
     for s, r in readies:
-        ctx.ob("queue", "the delivered event is the popped one", r == "std::task::Poll::Ready{0: std::collections::VecDeque::pop_front(self.pending_events)@Some.0}", s.loc(), r[:140])
-    ws = p.field_write_sites("waker")
+        ctx.ob("queue", "the delivered event is the popped one", r == "std::task::Poll::Ready{0: std::collections::VecDeque::pop_front(%s)@Some.0}" % Q, s.loc(), r[:140])
+    ws = p.field_write_sites(R.waker)
     for ps, _ in pend:
         ctx.ob("queue", "waker stored before Pending", bool(ws) and ps.bb not in p.reachable([0], blocked_nodes=lib.bbs(ws)), ps.loc(), "self.waker = Some(..) on every path to Pending")
     qm = set()
     for b in prog.bodies(PS):
-        for s in lib.field_mut_calls(b, "pending_events"):
-            qm.add((b.npath.split("::")[-1], strip_generics(b.call_name(s.term)).split("::")[-1]))
-    ctx.ob("queue", "pending_events mutators", qm == {("push_event_and_wake", "push_back"), ("poll", "pop_front")}, msg=str(sorted(qm)))
+        for s in lib.field_mut_calls(b, R.queue):
+            role = "emitter" if b.npath in R.emitters or b is add_i or b is rem_i else b.npath.split("::")[-1]
+            qm.add((role, strip_generics(b.call_name(s.term)).split("::")[-1]))
+    ctx.ob("queue", "event queue mutators", qm == {("emitter", "push_back"), ("poll", "pop_front")}, msg=str(sorted(qm)))
     # behaviour wrapper
+    store_f = lm.field_by_type(prog, PS, r"^libp2p_peer_store::behaviour::Behaviour$", r"^S$")
     bo = ctx.body(PS, r"<behaviour::Behaviour as libp2p_swarm::NetworkBehaviour>::on_swarm_event$")
-    fw = [s for s in bo.call_sites(r"store::Store::on_swarm_event$") if [render(a) for a in bo.site_expr(s)[2]] == ["self.store", "event"]]
+    fw = [s for s in bo.call_sites(r"store::Store::on_swarm_event$") if [render(a) for a in bo.site_expr(s)[2]] == ["self." + store_f, lm.pname(bo, 2)]]
     got = lib.count_range(bo, [0], bo.return_blocks(), lib.bbs(fw))
     ctx.ob("wrapper", "Behaviour forwards every swarm event to the store once", got == (1, 1), "%s:%d" % (bo.file, bo.line), "Store::on_swarm_event(self.store, event): %s" % (got,))
     bp = ctx.body(PS, r"<behaviour::Behaviour as libp2p_swarm::NetworkBehaviour>::poll$")
     rr = [render(e) for _, _, e in ret_consts(bp)]
-    ctx.ob("wrapper", "Behaviour::poll = store.poll(cx).map(ToSwarm::GenerateEvent)", rr == ["std::task::Poll::map(libp2p_peer_store::store::Store::poll(self.store, cx), fn:libp2p_swarm::ToSwarm::GenerateEvent)"],
+    ctx.ob("wrapper", "Behaviour::poll = store.poll(cx).map(ToSwarm::GenerateEvent)",
+           rr == ["std::task::Poll::map(libp2p_peer_store::store::Store::poll(self.%s, %s), fn:libp2p_swarm::ToSwarm::GenerateEvent)" % (store_f, lm.pname(bp, 2))],
            "%s:%d" % (bp.file, bp.line), str(rr)[:200])
